@@ -1102,4 +1102,11 @@ def run(prog, rep, tier, snap):
     rep.rule("R06.6", "the buffered writer never formats from a consumed va_list (records larger than the write buffer)", 1)
     valist.r_valist(prog, rep, "R06.6", only=("fdprintf",))
     rep.call(valist.r_stale_room, prog, rep, "R06.6")
+    rep.rule("R06.13", "the buffered writer reports success only when the text fitted the room it was formatted into (value-fixed walk around the buffer's end)", 1)
+    rep.call(valist.r_fits, prog, rep, "R06.13")
 READY = True
+
+# texts brought up to date with the rules added in the last rounds
+LEVEL_TEXT = LEVEL_TEXT + ' Also: a resumed write continues with the rest; element addresses handed to a holder are handed over again when their array is grown by realloc(); the per-user checkpoint writes its header from a task of that user; the buffered writer reports success only when the text fitted.'
+TECHNIQUE = (TECHNIQUE if isinstance(TECHNIQUE, str) else TECHNIQUE) + '; must-pass rules over realloc growth; value-fixed walk of the buffered writer'
+
